@@ -199,6 +199,11 @@ def check(prop, tier, seed, replay=None):
         # pick the binary named in the replay file
         with open(replay, errors="replace") as f:
             txt = f.read()
+        if "engine E3" in txt:      # C19's WASI-host sample on the big-endian build
+            import e3
+            r = e3.replay_be(replay, rdir)
+            sys.stdout.write(r.stdout.decode(errors="replace")); sys.stderr.write(r.stderr.decode(errors="replace")[-8000:])
+            return 1 if r.returncode != 0 else 0
         be = " be=1" in txt
         mod = "mem" if "# module mem" in txt else ("atomimp" if "# module atomimp" in txt else "atom")
         mv = re.search(r"^# variant (\S+)", txt, re.M)
@@ -296,6 +301,37 @@ def check(prop, tier, seed, replay=None):
         n_mod, bad = be_translator_sample(seed, 24 if tier == "quick" else 300, rdir)
         aux = {"forced_big_endian_translator_modules_compared": n_mod, "mismatches": len(bad)}
         known = load_known()
+        # the WASI host on the big-endian build (wasi/wasi.c is one of the property's anchors): C12-C15 workloads, same oracles
+        import e3
+        wruns, wbad = e3.be_sample(seed, 1500 if tier == "quick" else 40000, rdir)
+        aux.update({"wasi_host_big_endian_runs": wruns, "wasi_host_big_endian_failures": len(wbad)})
+        seen_w = set()
+        for b in wbad:
+            for osig in (b.get("sig") or "-").split(";"):
+                sig = "C19/wasi-host-big-endian/" + osig.split("/", 1)[-1]
+                if osig in ("-", "") or sig in seen_w:
+                    continue
+                seen_w.add(sig)
+                by_sig.setdefault(sig, []).append(b)
+                k = match_known(prop, sig, known)
+                if k:
+                    known_seen.append({"signature": sig, "what": k.get("what", ""), "runs": 1})
+                    lines.append("KNOWN-FINDING: property=%s %s [%s]" % (prop, k.get("what", ""), sig))
+                    continue
+                if len(seen_w) > 4:
+                    lines.append("note: further new signature %s not reported in detail" % sig); new += 1
+                    continue
+                os.makedirs(os.path.join(REPLAYS, prop), exist_ok=True)
+                out = os.path.join(REPLAYS, prop, safe_name(sig) + ".replay")
+                if b.get("replay") and b["replay"] != "-" and os.path.exists(b["replay"]):
+                    shutil.copy(b["replay"], out)
+                else:
+                    with open(out, "w") as f:
+                        f.write("# build be\n# no replay file was produced for run idx %s of workload %s\n" % (b.get("idx"), b.get("prop")))
+                lines.append("VIOLATION property=%s replay=%s" % (prop, out))
+                lines.append("  signature: %s" % sig)
+                lines.append("  detail: (workload of %s on the big-endian build) %s" % (b.get("prop"), (b.get("detail") or "")[:800]))
+                new += 1
         for b in bad[:3]:
             sig = "C19/translator/forced-big-endian-reader:" + b["class"]
             by_sig.setdefault(sig, []).append(b)
